@@ -40,7 +40,7 @@ def budget(tier):
     ex = int(os.environ.get("VERIF_EXAMPLES", "0"))
     if tier == "quick":
         return dict(shards=16, examples=ex or 40, shrink_calls=40, shard_timeout=1500, time_budget=110)
-    return dict(shards=16, examples=ex or 900, shrink_calls=300, shard_timeout=6 * 3600, time_budget=3 * 3600)
+    return dict(shards=16, examples=ex or 5000, shrink_calls=300, shard_timeout=6 * 3600, time_budget=1500)
 
 
 @st.composite
